@@ -43,6 +43,10 @@ def gen_cases(tier, seed):
         p = rng.choice([1, 2, 3, 3, 3, 4, 5])
         nc = rng.choice([2, 3, 4, rng.randint(2, 12), rng.randint(2, 40)])
         nth = rng.randint(4, 9)
+        if k % 6 == 5:
+            # theta counts n for which n*(1/n) != 1 in floating point (49, 98, 103, 107, ...): mode numbers derived through a
+            # frequency spacing 1/n are then not exact integers
+            nth = 49 if tier == "quick" else rng.choice([49, 49, 98, 103, 107])
         P = rng.choice([1, 1, 2, 3, 4])
         cases.append({"kind": "solve", "p": p, "ncells": nc, "nth": nth, "nz": rng.randint(1, 3), "P": P, "quad": rng.choice([p, 2 * p, 2 * p + 2, 7]),
                       "A": rng.choice([-1.0, -1.0, 2.5, -0.3]), "seed": rng.randrange(1 << 30), "cost": nc * nth * 3})
@@ -132,7 +136,7 @@ def _solve_case(case, spl, ps):
     Pn = nprocs[0] * nprocs[1]
     co = _Coef(case["seed"] % 100000, a, b)
     A = case["A"]
-    modes = [int(m) for m in np.fft.fftfreq(nth, 1 / nth)]
+    modes = [int(m) for m in np.rint(np.fft.fftfreq(nth) * nth)]
     lN = sorted(set(rng.sample(modes, rng.randint(0, min(3, len(modes))))))
     uN = sorted(set(rng.sample(modes, rng.randint(0, min(2, len(modes))))))
     RHO = rs.standard_normal((nr, nth, nz)) + 1j * rs.standard_normal((nr, nth, nz))
